@@ -37,6 +37,7 @@ CONTRACTS = {
     props=['C10', 'C03', 'C11'], self_class='SourceDataWrapper', params={'chunk_rows': 'int?'}, returns='none', yields='opq:chunk',
     requires=['chunk_rows is None or chunk_rows >= 1'],
     ghost={'next_row': ('int', 'self._from_idx')},
+    ghost_effects={'rows_left': 'self._n_rows'},      # for callers: a new generator holds exactly the window rows (= the postcondition below)
     # every chunk handed on starts exactly where the previous one ended, inside the window
     yield_requires=[('contiguous', 'yielded.first_row == next_row'), ('non-empty', 'yielded.n_rows >= 1')],
     on_yield={'next_row': 'yielded.first_row + yielded.n_rows'},
@@ -112,16 +113,21 @@ MFD_FIELDS = {'_data_source': {'cls': 'SourceDataWrapper', 'fields': SW_FIELDS, 
 CONTRACTS.update({
  'MultiFrameData.__next__': dict(
     props=['C03', 'C18'], self_fields=MFD_FIELDS, params={}, returns={'cls': 'FrameData', 'fields': {}},
-    requires=['self._i >= 0'],
+    ghost={'rows_left': ('int', 'fresh_int()')},
+    # representation invariant of an iteration in progress: the row generator still holds exactly the rows not yet numbered
+    requires=['self._i >= 0', 'rows_left == self._data_source._n_rows - self._i or self._data_item_generator is None'],
     raises={'RuntimeError': 'self._data_item_generator is None',
             'StopIteration': 'self._data_item_generator is not None and self._i >= self._data_source._n_rows'},
     ensures=[('counter-advances-by-one', 'self._i == old(self._i) + 1'),
              ('frame-number-is-the-row-ordinal-from-1', 'result._frame_number == old(self._i) + 1'),
              ('refers-to-its-own-frame', 'result._frame is self._frame'),
-             ('never-more-records-than-rows', 'result._frame_number <= self._data_source._n_rows')]),
+             ('never-more-records-than-rows', 'result._frame_number <= self._data_source._n_rows'),
+             ('generator-invariant-kept', 'rows_left == self._data_source._n_rows - self._i')]),
  'MultiFrameData.__iter__': dict(
     props=['C03', 'C18', 'C10'], self_fields=MFD_FIELDS, self_inv=MFD_INV, params={}, returns={'cls': 'MultiFrameData', 'fields': {}},
-    ensures=[('numbering-restarts', 'self._i == 0'), ('returns-itself', 'result is self'), ('has-generator', 'self._data_item_generator is not None')]),
+    ghost={'rows_left': ('int', 'fresh_int()')},
+    ensures=[('numbering-restarts', 'self._i == 0'), ('returns-itself', 'result is self'), ('has-generator', 'self._data_item_generator is not None'),
+             ('generator-holds-all-rows', 'rows_left == self._data_source._n_rows - self._i')]),
  'MultiFrameData.__len__': dict(
     props=['C03'], self_fields=MFD_FIELDS, params={}, returns='int', ensures=[('one-record-per-row', 'result == self._data_source._n_rows')]),
 })
